@@ -294,8 +294,9 @@ class SyntaxCheckInstance(Visitor):
     def _visit_for(self, stmt: ForStmt, ctx: _Ctx):
         env = ctx.env
         self._visit_expr(stmt.iterable, ctx)
-        env = self._visit_binding(stmt.target, env)
-        body_env = self._visit_block(stmt.body, _Ctx(env, False))
+        body_env = self._visit_block(stmt.body, _Ctx(self._visit_binding(stmt.target, env), False))
+        # the loop may run zero times, so neither the target nor the names the
+        # body introduces are bound afterwards (unless they were before)
         return env.merge(body_env)
 
     def _visit_context(self, stmt: ContextStmt, ctx: _Ctx):
